@@ -230,55 +230,131 @@ func init() {
 			pu := FuncUnit{pfn, pfd, ppkg}
 			pinfo := ppkg.TypesInfo
 			pfc := c.cfgOf(pu, nil)
-			isMax := func(e ast.Expr) bool { return FieldOfSelector(pinfo, e) == maxF }
+			// single-definition local aliases (`limit, height := s.MaxHeightPhysical, len(s.Frames)`)
+			resolve := func(e ast.Expr) ast.Expr {
+				e = ast.Unparen(e)
+				o := identObj(pinfo, e)
+				if o == nil {
+					return e
+				}
+				var def ast.Expr
+				n := 0
+				ast.Inspect(pfd.Body, func(m ast.Node) bool {
+					if as, ok := m.(*ast.AssignStmt); ok && len(as.Lhs) == len(as.Rhs) {
+						for i, l := range as.Lhs {
+							if identObj(pinfo, l) == o {
+								n++
+								def = as.Rhs[i]
+							}
+						}
+					}
+					return true
+				})
+				if n == 1 && def != nil {
+					return ast.Unparen(def)
+				}
+				return e
+			}
+			isMax := func(e ast.Expr) bool { return FieldOfSelector(pinfo, resolve(e)) == maxF }
 			isLenFrames := func(e ast.Expr) bool {
-				ce, ok := ast.Unparen(e).(*ast.CallExpr)
+				ce, ok := resolve(e).(*ast.CallExpr)
 				if !ok || len(ce.Args) != 1 {
 					return false
 				}
 				id, ok := ast.Unparen(ce.Fun).(*ast.Ident)
 				return ok && id.Name == "len" && FieldOfSelector(pinfo, ce.Args[0]) == frames
 			}
-			found := false
-			for _, b := range pfc.condBlocks(func(e ast.Expr) bool {
+			isZero := func(e ast.Expr) bool { v, ok := intConst(pinfo, e); return ok && v == 0 }
+			// atoms:  "on"   = MaxHeightPhysical > 0      "full" = len(Frames) >= MaxHeightPhysical
+			cls := func(e ast.Expr) (string, bool) {
 				be, ok := ast.Unparen(e).(*ast.BinaryExpr)
-				return ok && ((isMax(be.X) && isLenFrames(be.Y)) || (isLenFrames(be.X) && isMax(be.Y)))
-			}) {
-				be := ast.Unparen(pfc.CondOf(b)).(*ast.BinaryExpr)
+				if !ok {
+					return "", false
+				}
 				op := be.Op
-				if isLenFrames(be.X) { // len OP max  ->  max OP' len
+				x, y := be.X, be.Y
+				flip := func(o token.Token) token.Token {
+					switch o {
+					case token.LSS:
+						return token.GTR
+					case token.LEQ:
+						return token.GEQ
+					case token.GTR:
+						return token.LSS
+					case token.GEQ:
+						return token.LEQ
+					}
+					return o
+				}
+				switch {
+				case isMax(x) && isZero(y): // max OP 0
+				case isZero(x) && isMax(y):
+					x, y, op = y, x, flip(op)
+				case isLenFrames(x) && isMax(y): // len OP max
 					switch op {
 					case token.GEQ:
-						op = token.LEQ
-					case token.GTR:
-						op = token.LSS
-					case token.LEQ:
-						op = token.GEQ
+						return "full", false
 					case token.LSS:
-						op = token.GTR
+						return "full", true
+					}
+					return "", false
+				case isMax(x) && isLenFrames(y): // max OP len
+					switch op {
+					case token.LEQ:
+						return "full", false
+					case token.GTR:
+						return "full", true
+					}
+					return "", false
+				default:
+					return "", false
+				}
+				switch op { // max OP 0
+				case token.GTR:
+					return "on", false
+				case token.LEQ:
+					return "on", true
+				}
+				return "", false
+			}
+			permitEdges := pfc.edgesEntailing(cls, func(v map[string]bool) bool {
+				return v["$has:on"] && !v["on"] || v["$has:full"] && !v["full"]
+			})
+			sawFull := false
+			ast.Inspect(pfd.Body, func(n ast.Node) bool {
+				if e, ok := n.(ast.Expr); ok {
+					if nm, _ := cls(e); nm == "full" {
+						sawFull = true
 					}
 				}
-				// refusal edge: returns a non-nil error
-				refuseEdge := -1
-				for k := 0; k < 2; k++ {
-					if succ := b.Succs[k]; len(succ.Nodes) > 0 {
-						if rs, ok := succ.Nodes[0].(*ast.ReturnStmt); ok && len(rs.Results) == 1 && !isNilIdent(pinfo, rs.Results[0]) {
-							refuseEdge = k
-						}
-					}
+				return true
+			})
+			if !sawFull {
+				obs = append(obs, mkOb(c, "HEIGHT.check-chain", pu, "inclusive comparison", pfd, Undecided, "no comparison of MaxHeightPhysical with len(Frames) found", false))
+				return obs
+			}
+			bad := false
+			var at ast.Node = pfd
+			for _, b := range pfc.G.Blocks {
+				if !pfc.Live(b) {
+					continue
 				}
-				found = true
-				// max <= len refuses on true edge; max > len refuses on false edge
-				inclusive := (op == token.LEQ && refuseEdge == 0) || (op == token.GTR && refuseEdge == 1)
-				if inclusive {
-					obs = append(obs, mkOb(c, "HEIGHT.check-chain", pu, "inclusive comparison", be, Proved, "push refused when len(Frames) >= MaxHeightPhysical", true))
-				} else {
-					obs = append(obs, mkOb(c, "HEIGHT.check-chain", pu, "inclusive comparison", be, Violated,
-						"the pre-push physical height test is not `len(Frames) >= MaxHeightPhysical => refuse`: the stack can hold more frames than the configured maximum", true))
+				for _, n := range b.Nodes {
+					rs, ok := n.(*ast.ReturnStmt)
+					if !ok || len(rs.Results) != 1 || !isNilIdent(pinfo, rs.Results[0]) {
+						continue
+					}
+					at = rs
+					if pfc.reachableAvoiding(b, permitEdges) {
+						bad = true
+					}
 				}
 			}
-			if !found {
-				obs = append(obs, mkOb(c, "HEIGHT.check-chain", pu, "inclusive comparison", pfd, Undecided, "no comparison of MaxHeightPhysical with len(Frames) found", false))
+			if bad {
+				obs = append(obs, mkOb(c, "HEIGHT.check-chain", pu, "inclusive comparison", at, Violated,
+					"the pre-push physical height test can permit a push when the limit is on and len(Frames) >= MaxHeightPhysical: the stack can hold more frames than the configured maximum", true))
+			} else {
+				obs = append(obs, mkOb(c, "HEIGHT.check-chain", pu, "inclusive comparison", at, Proved, "a push is permitted only when the limit is off or len(Frames) < MaxHeightPhysical", true))
 			}
 			return obs
 		}})
